@@ -339,6 +339,39 @@ macro_rules! e2e_calls {
         for (api, t) in $calls.iter() {
             let pos = || $n as i64;
             let s = match (*api, *t) {
+                (2, 0) => match $r.next_nb::<DecodedBytes>() {
+                    Ok(None) => format!("[0,10,{}]", pos()),
+                    Ok(Some(m)) => res_json(0, 1, jarr(m)),
+                    Err(nb::Error::WouldBlock) => format!("[0,13,{}]", pos()),
+                    Err(nb::Error::Other(e)) => res_json(0, 0, jarr(&ev_of_read_err(pos(), &e))),
+                },
+                (3, 0) => match $r.read_nb::<DecodedBytes>() {
+                    Ok(m) => res_json(0, 1, jarr(m)),
+                    Err(nb::Error::WouldBlock) => format!("[0,13,{}]", pos()),
+                    Err(nb::Error::Other(e)) => res_json(0, 0, jarr(&ev_of_read_err(pos(), &e))),
+                },
+                (2, 1) => match $r.next_nb::<File>() {
+                    Ok(None) => format!("[1,10,{}]", pos()),
+                    Ok(Some(f)) => res_json(1, 1, crate::ps::file(&f)),
+                    Err(nb::Error::WouldBlock) => format!("[1,13,{}]", pos()),
+                    Err(nb::Error::Other(e)) => file_res::<_>(pos(), Err(e)),
+                },
+                (3, 1) => match $r.read_nb::<File>() {
+                    Ok(f) => res_json(1, 1, crate::ps::file(&f)),
+                    Err(nb::Error::WouldBlock) => format!("[1,13,{}]", pos()),
+                    Err(nb::Error::Other(e)) => file_res::<_>(pos(), Err(e)),
+                },
+                (2, 2) => match $r.next_nb::<Parser>() {
+                    Ok(None) => format!("[2,10,{}]", pos()),
+                    Ok(Some(p)) => parser_ok(p),
+                    Err(nb::Error::WouldBlock) => format!("[2,13,{}]", pos()),
+                    Err(nb::Error::Other(e)) => parser_res::<_>(pos(), Err(e)),
+                },
+                (3, 2) => match $r.read_nb::<Parser>() {
+                    Ok(p) => parser_ok(p),
+                    Err(nb::Error::WouldBlock) => format!("[2,13,{}]", pos()),
+                    Err(nb::Error::Other(e)) => parser_res::<_>(pos(), Err(e)),
+                },
                 (0, 0) => match $r.next::<DecodedBytes>() {
                     None => format!("[0,10,{}]", pos()),
                     Some(Ok(m)) => res_json(0, 1, jarr(m)),
@@ -381,6 +414,10 @@ fn file_res<E: ByteSourceErr + std::fmt::Debug>(pos: i64, r: Result<File, ReadPa
         Err(ReadParsedError::IoErr(e, n)) => res_json(1, 0, jarr(&ev_of_read_err(pos, &ReadDecodedError::IoErr(e, n)))),
     }
 }
+fn parser_ok(p: Parser) -> String {
+    let evs: Vec<String> = p.take(10000).map(|e| crate::ps::event(&e)).collect();
+    res_json(2, 1, format!("[{}]", evs.join(",")))
+}
 fn parser_res<E: ByteSourceErr>(pos: i64, r: Result<Parser, ReadDecodedError<E>>) -> String {
     match r {
         Ok(p) => {
@@ -409,7 +446,7 @@ fn hand(stream: &[u8], calls: &[(u8, u8)]) -> Vec<String> {
     let mut out = vec![];
     for (k, (api, t)) in calls.iter().enumerate() {
         let s = if k >= items.len() {
-            if *api == 0 {
+            if *api == 0 || *api == 2 {
                 format!("[{},10,-1]", t)
             } else {
                 res_json(*t, 0, jarr(&vec![-1, 9, 0, 0]))
@@ -491,7 +528,7 @@ pub fn cmd_c10(tier: &str, out: &str) {
         // expected number of results: noise reports + values + end; calls: that many plus 3 more
         let nres = k + noises.iter().filter(|g| !g.is_empty()).count() + 3;
         let calls: Vec<(u8, u8)> = (0..nres)
-            .map(|_| (if case % 5 == 1 { 1 } else if case % 5 == 2 { rng.below(2) as u8 } else { 0 }, if case % 3 == 0 { (case / 3 % 3) as u8 } else { rng.below(3) as u8 }))
+            .map(|_| (if case % 5 == 1 { 1 } else if case % 5 == 2 { rng.below(2) as u8 } else if case % 5 == 3 { rng.below(4) as u8 } else if case % 5 == 4 { 2 } else { 0 }, if case % 3 == 0 { (case / 3 % 3) as u8 } else { rng.below(3) as u8 }))
             .collect();
         let maxlen = files.iter().map(|f| f.len()).max().unwrap_or(0);
         for (src, buf) in [(0u8, 0u8), (1, 1), (2, 2), (1, 0), (2, 1), (0, 2), (3, 0), (3, 2)] {
